@@ -9,6 +9,7 @@ import (
 	"fmt"
 	"io"
 	"os"
+	"path"
 	"path/filepath"
 	"sync"
 
@@ -112,6 +113,13 @@ func watchTarget(ctx context.Context, target string, handler eventHandler, log *
 	if info.IsDir() {
 		watcher, err = watcherx.WatchDirectory(ctx, urlx.GetURLFilePath(targetUrl), eventCh)
 	} else {
+		// watcherx matches file events by comparing the cleaned event name with
+		// the path it was given, so hand it a cleaned path. Otherwise a target
+		// spelled relative to the working directory ("file://./namespaces.ts")
+		// is loaded once and never followed.
+		if targetUrl.Scheme == "file" || targetUrl.Scheme == "" {
+			targetUrl.Path = path.Clean(targetUrl.Path)
+		}
 		watcher, err = watcherx.Watch(ctx, targetUrl, eventCh)
 	}
 	// this handles the watcher init error
